@@ -102,6 +102,13 @@ def vocabulary():
     add("switch-literally-nocase", P(g.switch(L(2), [(g.lv_lity(I("xx")), L("same")), (g.lv_lit(1), L("one"))])), [])
     add("switch-break", P(g.for_do([g.cl_it(g.lv_id("aa"), g.lst([L(1), L(2), L(3)]))],
                                    g.switch(I("aa"), [(g.lv_lit(2), g.brk(0, L("two"))), (g.LV_IGNORE, P(I("aa")))]))), [])
+    add("fwd-ref-in-call", P(g.call(g.lam([], g.seq([g.decl("get", g.lam([], I("xx"))), g.decl("xx", L(2)), g.call(I("get"), [])])), []), I("xx")), [])
+    add("recursive-local", P(g.call(g.lam([], g.seq([
+        g.decl("fact", g.lam([g.param("nn")], g.if_(g.binop("==", I("nn"), L(0)), L(1), g.binop("*", I("nn"), g.call(I("fact"), [g.binop("-", I("nn"), L(1))]))))),
+        g.call(I("fact"), [L(4)])])), [])), [])
+    add("fwd-ref-in-while", g.call(g.lam([], g.seq([g.decl("cc", L(2)), g.while_(g.binop(">", I("cc"), L(0)), g.seq([
+        g.decl("get", g.lam([], I("ww"))), g.decl("ww", g.binop("*", I("cc"), I("cc"))), P(g.call(I("get"), [])),
+        g.asg(T("cc"), g.binop("-", I("cc"), L(1)))]))])), []), [])
     add("eval-declares-here", g.seq([g.evl(g.decl("ev", g.binop("+", I("xx"), L(1)))), P(I("ev"))]), [])
     add("eval-in-call-scope", P(g.call(g.lam([g.param("xx")], g.evl(g.binop("+", I("xx"), L(1)))), [L(40)])), [])
     add("eval-break", P(g.for_do([g.cl_it(g.lv_id("aa"), g.lst([L(1), L(2), L(3)]))], g.evl(g.if_(g.binop("==", I("aa"), L(2)), g.brk(0, I("aa")))))), [])
